@@ -498,13 +498,12 @@ PROPS = {
         "extra": c03_extra,
         "rule": "seeded program pairs x {independent, sequential} x {universal, forward, backward} x {mu, tau-star} x simplify x eq-break; StrongEquivalenceTask::decompose "
                 "vs Lean `strongProblems`: problem names, formula names, roles and formula trees all equal",
-        "level_text": "Full for the tau-star representation (all decompositions, directions, simplify and eq-break flags): strong_refutes - some emitted problem is refuted by the "
-                      "classical interpretation merging (H,T) iff H subset T on the programs' predicates and (H,T) satisfies one program but not the other in a requested direction; "
-                      "strongly_equivalent_iff - no emitted problem of a universal task has a standard countermodel iff the programs have the same HT models; strong_refutes_needs_sub - "
-                      "an interpretation with H not-subset T on a program predicate refutes nothing (any representation, any flags). Composes C01 (tau_star_correct), C07 (ht and classic portfolios), "
-                      "C05 (gamma_correct), C19 (eq-break, decompositions) and the semantics of the transition axioms. Hypotheses, all explicit: pass bound sufficed, no usize overflow, "
-                      "rename_conflicting_symbols is the identity on the assembled problems (NoSymbolConflict), and with simplification on H subset T everywhere. Partial: the mu representation "
-                      "(needs C08 NaturalCorrect) is tied by correspondence only.",
+        "level_text": "Full for the model, both representations and all flags: strong_refutes - some emitted problem is refuted by the classical interpretation merging (H,T) iff H subset T on the "
+                      "programs' predicates and (H,T) satisfies one program but not the other in a requested direction; strongly_equivalent_iff - no emitted problem of a universal task has a standard "
+                      "countermodel iff the programs have the same HT models; strong_refutes_needs_sub - an interpretation with H not-subset T on a program predicate refutes nothing. Composes C01 (tau_star_correct), "
+                      "C08 (mu_correct), C07 (ht and classic portfolios), C05 (gamma_correct), C19 (eq-break, decompositions) and the semantics of the transition axioms. Hypotheses, all explicit: the pass bound "
+                      "sufficed, no usize overflow, rename_conflicting_symbols is the identity on the assembled problems (NoSymbolConflict - when it is not, the claim is false: known finding with witness), "
+                      "and with simplification or mu on, H subset T everywhere.",
         "level_note": PROOF_NOTE,
         "technique": "Lean 4 proof by composition (gamma_correct + decomposition theorems) + end-to-end differential correspondence",
         "design_ref": "DESIGN.md 6/C03",
@@ -526,10 +525,12 @@ PROPS = {
     "C08": {
         "suites": [("natural", 1200, 30000)],
         "rule": "seeded programs biased to arithmetic; natural() (incl. None), mu(), is_regular() vs the Lean model, exact equality",
-        "level_text": "Partial: mu_total, mu_rule_natural/_fallback, regular_iff, mu_eq_natural proved (structure of mu/natural/regularity); the semantic theorem NaturalCorrect "
-                      "is stated, not yet proved; natural/mu are tied by exact correspondence.",
+        "level_text": "Full for the model: natural_correct - every formula the natural translation prints for a rule it accepts holds in an HT interpretation (H subset T; any world, assignment) iff the rule "
+                      "is satisfied in the reference semantics; natural_equiv_tau_star / mu_equiv_tau_star - formula by formula HT-equivalence with tau*; mu_total, mu_correct. Integer-sorted variables are sound: "
+                      "an instance in which a variable of int_variables has a non-integer value holds vacuously (ruleInst_vacuous). Terms of the first kind are single-valued (p2f_sem), head intervals range over "
+                      "fresh integer variables whose freshness is proved (headFreshOK: names N<i>, N<i>_<j> are pairwise distinct and not among the head's variables).",
         "level_note": PROOF_NOTE,
-        "technique": "Lean 4 proof (structural) + differential correspondence",
+        "technique": "Lean 4 proof (single-valuedness of first-kind terms, vacuity of non-integer instances, head intervals by fresh integer binders, composition with tau_star_correct) + differential correspondence",
         "design_ref": "DESIGN.md 6/C08",
         "trusted_base": COMMON_TRUST,
         "assumptions": COMMON_ASSUME,
